@@ -6,7 +6,7 @@
    grants channel 1 to user 0; load; purge document 0; the next load still returns channel 1 although no
    document grants it.  Reproduced on the real code by the harness (monitor access_spec, signature
    purge-stale-grant). *)
-From SG Require Import Base.Prelude C03.Access C03.AccessSpec C03.Effective C03.AccessX.
+From SG Require Import Base.Prelude C03.Access C03.AccessSpec C03.Effective C03.AccessX C03.Session.
 Open Scope N_scope.
 
 Definition purge_witness : list op :=
@@ -73,3 +73,32 @@ Proof.
   exists true, late_role_witness, 0, 1. split; [vm_compute; reflexivity|]. cbv zeta. split; vm_compute; reflexivity.
 Qed.
 Print Assumptions C03_filter_since_is_not_inherited_since.
+
+(* ---------- long-lived sessions: the DELETION of a principal document is not notified ---------- *)
+(* db/change_listener.go changeListener.ProcessFeedEvent returns before notifyKey when the feed event is not a mutation,
+   so an open BLIP connection / continuous feed is not told that a role was PURGED (DeleteRole purge: datastore.Delete)
+   or that its user was DELETED: its next requests are authorized with the user object cached before.  Witnesses:
+   role 0 has channel 2, user 0 holds role 0, a session is opened, role 0 is purged -- the session still sees channel 2
+   where a fresh request does not; user 0 is deleted -- its session still answers.  Reproduced on the real code by the
+   harness (monitor waiter_keys_cover_access_sources, signature session-stale-after-unnotified-delete).  Minimal patch:
+   in ProcessFeedEvent notify the key of a user / role document for deletions as well (take the DocumentType test
+   before the `event.Opcode != sgbucket.FeedOpMutation` return); refreshUser must then close the connection when
+   ReloadUser reports that the user is gone. *)
+Definition purged_role_witness : list sop :=
+  [SBase (SetRole 0 (Some [2])); SBase (SetUser 0 None (Some [0])); SOpen 0 0 false; SBase (DelRole 0 true)].
+Definition deleted_user_witness : list sop :=
+  [SBase (SetUser 0 (Some [1]) None); SOpen 0 0 false; SBase (DelUser 0)].
+
+Theorem C03_session_request_sees_current_access_with_deletions_refuted :
+  (exists ops id chs ros,
+     snd (sstep (srun sinit ops) (SRequest id)) = SView (Some (chs, ros)) /\ In 2 chs /\
+     snd (load_user (ss_st (srun sinit ops)) 0) = OUser (Some ([0], [0]))) /\
+  (exists ops id v,
+     snd (sstep (srun sinit ops) (SRequest id)) = SView (Some v) /\
+     snd (load_user (ss_st (srun sinit ops)) 0) = OUser None).
+Proof.
+  split.
+  - exists purged_role_witness, 0, [0; 2; 0], [0]. split; [vm_compute; reflexivity|]. split; [right; left; reflexivity | vm_compute; reflexivity].
+  - exists deleted_user_witness, 0, ([1; 0], []). split; vm_compute; reflexivity.
+Qed.
+Print Assumptions C03_session_request_sees_current_access_with_deletions_refuted.
